@@ -31,7 +31,8 @@ def gen_cases(ctx):
     for seq in itertools.product(alpha2, repeat=4 if th else 3):
         cases.append(("ex-2threads", "ex 2 " + " ".join(seq)))
     # (b) exhaustive after a prelude in which a loan is live and an access is in progress
-    for prelude in (["0l", "0l"], ["0l", "0l", "0g", "0g"], ["1l", "1l", "0D"], ["0l", "0l", "0e", "0e"]):
+    preludes = [["0l", "0l"], ["0l", "0l", "0g", "0g"], ["1l", "1l", "0D"], ["0l", "0l", "0e", "0e"]]
+    for prelude in (preludes if th else preludes[1:]):
         for seq in itertools.product(alpha2, repeat=4 if th else 3):
             cases.append(("ex-prelude", "ex 2 " + " ".join(prelude + list(seq))))
     # (c) 3 threads, exhaustive short prefixes
@@ -140,6 +141,7 @@ def run_mem(ctx):
         if why:
             bad.append((line, why, l))
         items.append(([{"S": 0, "U": 1, "D": 2}.get(o, 3) for o in ops], codes))
+    bad.sort(key=lambda b: (not b[1].startswith("op "), len(b[0])))
     for (line, why, l) in bad[:3]:
         ctx.violation("memory::State: a context kept (or lost) access against the contract: " + why,
                       {"case_line": line, "impl_answers": l, "why": why,
